@@ -69,3 +69,28 @@ def uf_re_end_s(text, pos, pattern) -> 'int':
 def uf_re_token(text, pos, pattern) -> 'Val':
     """what a pattern match returns: group 1 / tuple of groups / whole match"""
     raise NotImplementedError
+
+
+def spec_ungroup(e: 'opaque:Model') -> 'opaque:Model':
+    """Sequence._parse looks through nested groups"""
+    return spec_ungroup(e.exp) if isinstance(e, Group) else e
+
+
+def spec_seq_frame(node: 'opaque:Model', f0: 'Frame', k: 'int') -> 'Frame':
+    """the frame after the first k items of a sequence, each item run on the frame its predecessor left"""
+    return (spec_with_ast(f0, uf_defined_by(f0.ast, node)) if k <= 0
+            else out_frame(spec_ungroup(node.sequence[k - 1]), spec_seq_frame(node, f0, k - 1)))
+
+
+def spec_seq_ok(node: 'opaque:Model', f0: 'Frame', k: 'int') -> 'bool':
+    return k <= 0 or (spec_seq_ok(node, f0, k - 1)
+                      and out_ok(spec_ungroup(node.sequence[k - 1]), spec_seq_frame(node, f0, k - 1)))
+
+
+def spec_seq_out(node: 'opaque:Model', f0: 'Frame', k: 'int') -> 'Val':
+    """values of the items merged left to right; an item that returns None contributes nothing"""
+    return (None if k <= 0
+            else (spec_seq_out(node, f0, k - 1)
+                  if out_ret(spec_ungroup(node.sequence[k - 1]), spec_seq_frame(node, f0, k - 1)) is None
+                  else spec_cstmerge(spec_seq_out(node, f0, k - 1),
+                                     out_ret(spec_ungroup(node.sequence[k - 1]), spec_seq_frame(node, f0, k - 1)))))
